@@ -424,8 +424,10 @@ func (c *SpecCtx) binary(e *ast.BinaryExpr) *Val {
 	case token.MUL:
 		return intV(Mul(at, bt))
 	case token.QUO:
+		at, bt = x.signHint(c.st, at), x.signHint(c.st, bt)
 		return intV(GoDiv(at, bt))
 	case token.REM:
+		at, bt = x.signHint(c.st, at), x.signHint(c.st, bt)
 		return intV(GoRem(at, bt))
 	case token.SHL:
 		if bt.lit != nil {
@@ -782,7 +784,14 @@ func (c *SpecCtx) specCall(sf *SpecFn, args []ast.Expr) *Val {
 	}
 	env := map[string]*Val{}
 	for i, a := range args {
-		env[sf.Params[i]] = c.eval(a)
+		v := c.eval(a)
+		if v.K == kScalar && v.T.sort == SInt && len(v.T.s) > 48 {
+			// name large arguments: spec functions are expanded like macros
+			nv := *v
+			nv.T = c.x.bind(c.st, c.x.signHint(c.st, v.T), "sa")
+			v = &nv
+		}
+		env[sf.Params[i]] = v
 	}
 	sub := *c
 	sub.env = env
